@@ -12,6 +12,9 @@ import (
 	"time"
 )
 
+// noPrune switches the relevance pruning of the prelude off (VFY_NOPRUNE=1, for comparison runs).
+var noPrune = os.Getenv("VFY_NOPRUNE") != ""
+
 type Result struct {
 	Q        *Query
 	Answer   string // unsat | sat | unknown | timeout | error
@@ -35,39 +38,51 @@ func (x *Exec) script(q *Query, quant bool, z3 bool, model bool) string {
 		b.WriteString("(set-option :produce-models true)\n(set-logic ALL)\n")
 	}
 	spec := x.specText(quant) // may register sorts: before the prelude is printed
-	b.WriteString(x.w.Prelude(quant))
-	b.WriteString(codecPrelude(quant))
-	b.WriteString(derPrelude(quant))
-	b.WriteString(fmtPrelude(quant))
-	b.WriteString(cryptoPrelude())
-	b.WriteString(timePrelude())
+	var pre strings.Builder
+	pre.WriteString(x.w.Prelude(quant))
+	pre.WriteString(codecPrelude(quant))
+	pre.WriteString(derPrelude(quant))
+	pre.WriteString(fmtPrelude(quant))
+	pre.WriteString(cryptoPrelude())
+	pre.WriteString(timePrelude())
 	if quant {
-		b.WriteString(cryptoPreludeQ())
-		b.WriteString(timePreludeQ())
+		pre.WriteString(cryptoPreludeQ())
+		pre.WriteString(timePreludeQ())
 	}
 	for _, sp := range spec {
-		b.WriteString(sp)
+		pre.WriteString(sp)
 	}
+	if quant {
+		pre.WriteString(utf16Axioms())
+	}
+	var body strings.Builder
 	for _, d := range q.Decls {
-		b.WriteString(d)
-		b.WriteString("\n")
+		body.WriteString(d)
+		body.WriteString("\n")
 	}
 	for _, a := range q.Assumes {
-		fmt.Fprintf(&b, "(assert %s)\n", a)
+		fmt.Fprintf(&body, "(assert %s)\n", a)
 	}
 	if !q.Smoke {
 		goal, decls, trig := x.skolemGoal(q)
 		for _, d := range decls {
 			if !x.w.extraSeen[d] {
-				b.WriteString(d)
-				b.WriteString("\n")
+				body.WriteString(d)
+				body.WriteString("\n")
 			}
 		}
 		for _, a := range trig {
-			fmt.Fprintf(&b, "(assert %s)\n", a)
+			fmt.Fprintf(&body, "(assert %s)\n", a)
 		}
-		fmt.Fprintf(&b, "(assert (not %s))\n", goal)
+		fmt.Fprintf(&body, "(assert (not %s))\n", goal)
 	}
+	if quant && !noPrune {
+		p, _ := prunePrelude(pre.String(), body.String())
+		b.WriteString(p)
+	} else {
+		b.WriteString(pre.String())
+	}
+	b.WriteString(body.String())
 	b.WriteString("(check-sat)\n")
 	if model {
 		b.WriteString("(get-model)\n")
@@ -273,3 +288,4 @@ func dumpQuery(dir string, x *Exec, q *Query, idx int) string {
 	os.WriteFile(p, []byte(x.script(q, true, true, false)), 0o644)
 	return p
 }
+
